@@ -75,7 +75,7 @@ def run_tlc(module: str, cfg: str, *, env: dict | None = None, workers: int = 16
     moddir = os.path.join(SPEC, subdir)
     e = dict(os.environ)
     e.update({k: str(v) for k, v in (env or {}).items()})
-    jopts = ["-Xss256m", f"-Xmx{heap}", f"-DTLA-Library={SPEC}", *(os.environ.get("PMV_GC") or ("-XX:+UseParallelGC" if workers > 1 else "-XX:+UseSerialGC -XX:TieredStopAtLevel=1")).split()]
+    jopts = ["-Xss256m", f"-Xmx{heap}", f"-DTLA-Library={SPEC}", f"-Djava.io.tmpdir={wd}", *(os.environ.get("PMV_GC") or ("-XX:+UseParallelGC" if workers > 1 else "-XX:+UseSerialGC -XX:TieredStopAtLevel=1")).split()]
     cmd = ["java", *jopts, "-cp", JAR, "tlc2.TLC", "-workers", str(workers),
            "-metadir", os.path.join(wd, "meta"), "-noGenerateSpecTE",
            "-config", os.path.join(moddir, cfg)]
